@@ -9,6 +9,7 @@ mod lex;
 mod lr;
 mod nlc;
 mod width;
+mod ysrc;
 mod rng;
 mod util;
 
@@ -29,6 +30,7 @@ fn main() {
         "nlc" => nlc::main(&args[2..]),
         "lex" => lex::main(&args[2..]),
         "ctstep" => ct::main(&args[2..]),
+        "ysrc" => ysrc::main(&args[2..]),
         "width" => width::main(&args[2..]),
         x => {
             eprintln!("unknown subcommand {}", x);
